@@ -1,5 +1,9 @@
 import OrixModel
 import OrixModel.Codec.H5
+import OrixModel.Codec.AngVendors
+import OrixModel.Codec.Ctf
+import OrixModel.Codec.Bruker
+import OrixModel.Codec.Emsoft
 import OrixGen.IoTables
 import Driver.Proto
 /-
@@ -183,7 +187,138 @@ def runH5 : P String := do
 
 end H5
 
-def subops : List (String × P String) := [("ang", runAng), ("h5", runH5)]
+/-! ### vendor formats (C15) -/
+section Vendors
+
+def pVendor : P Vendor := do
+  let v ← pNat
+  match v with
+  | 0 => pure .tsl | 1 => pure .emsoft | 2 => pure .astar | 3 => pure .orix | _ => pure .unknown
+def pHLine : P HLine := do
+  let t ← pNat
+  match t with
+  | 0 => do let i ← pNat; pure (.phase i)
+  | 1 => do let l ← pList pStr; pure (.materialName l)
+  | 2 => do let l ← pList pStr; pure (.formula l)
+  | 3 => do let s ← pStr; pure (.symmetry s)
+  | 4 => do let v ← pList pInt; pure (.lattice v)
+  | 5 => do let l ← pList pStr; pure (.columnNames l)
+  | 6 => do let v ← pVendor; pure (.mark v)
+  | 7 => do let k ← pStr; let v ← pInt; pure (.grid k v)
+  | _ => pure .other
+def pAngFile : P AngFile := do
+  let h ← pList pHLine; let n ← pNat; let rows ← pList (pList pInt); pure ⟨h, n, rows, []⟩
+
+def jRead (r : Option (Bool × PMap)) : String :=
+  match r with
+  | none => "null"
+  | some (w, pm) => jObj [("warned", jBool w), ("map", jPMap pm)]
+
+/-- `codec decang <scale> <file>`: the .ang reader on an arbitrary file record -/
+def runDecAng : P String := do
+  let scale ← pInt
+  let f ← pAngFile
+  pure (jObj [("read", jRead (readAng Gen.Io.angReader scale f))])
+
+def pAngFmt : P AngFmt := do
+  let v ← pNat
+  match v with
+  | 0 => pure .tsl | 1 => pure .tslWide | 2 => pure .emsoft | _ => pure .astar
+def pAngExtras : P AngExtras := do
+  let ph ← pList (do let m ← pList pStr; let s ← pStr; pure (⟨m, s⟩ : PhaseX))
+  let ni ← pInt
+  pure ⟨ph, ni⟩
+
+/-- `codec encang <fmt> <scale> <extras> <map>`: the vendor file of a map and what the reader makes of it -/
+def runEncAng : P String := do
+  let fmt ← pAngFmt
+  let scale ← pInt
+  let x ← pAngExtras
+  let m ← pPMap
+  let f := encodeAng fmt x m
+  pure (jObj [("file", jAngFile f), ("read", jRead (readAng Gen.Io.angReader scale f))])
+
+open Orix.Codec.Ctf in
+def jCtfFile (f : CtfFile) : String :=
+  jObj [("marks", jList jStr f.marks), ("xcells", jOpt jInt f.xcells), ("ycells", jOpt jInt f.ycells),
+        ("xstep", jOpt jInt f.xstep), ("ystep", jOpt jInt f.ystep), ("nphases", jNat f.nPhases),
+        ("phases", jList (fun (l : PhaseLine) => jObj [("lat", jList jInt l.lattice), ("name", jStr l.name),
+            ("laue", jInt l.laue), ("sg", jInt l.sg)]) f.phaseLines),
+        ("ncols", jNat f.ncols), ("rows", jList (jList jInt) f.rows)]
+
+open Orix.Codec.Ctf in
+def runEncCtf : P String := do
+  let v ← pNat
+  let fmt : CtfFmt := match v with | 0 => .oxford | 1 => .emsoft | 2 => .astar | _ => .mtex
+  let laue ← pList pInt; let sg ← pList pInt; let xc ← pInt; let yc ← pInt; let xs ← pInt; let ys ← pInt
+  let fx ← pList pInt; let fy ← pList pInt
+  let m ← pPMap
+  let f := encodeCtf fmt ⟨laue, sg, xc, yc, xs, ys, fx, fy⟩ m
+  pure (jObj [("file", jCtfFile f), ("read", jOpt jPMap (readCtf Gen.Io.ctfTables f))])
+
+open Orix.Codec.Ctf in
+/-- `codec decctf <file>`: the .ctf reader on an arbitrary file record -/
+def runDecCtf : P String := do
+  let marks ← pList pStr; let xc ← pOpt pInt; let yc ← pOpt pInt; let xs ← pOpt pInt; let ys ← pOpt pInt
+  let np ← pNat
+  let pl ← pList (do let lat ← pList pInt; let nm ← pStr; let la ← pInt; let sg ← pInt; pure (⟨lat, nm, la, sg⟩ : PhaseLine))
+  let nc ← pNat; let rows ← pList (pList pInt)
+  pure (jObj [("read", jOpt jPMap (readCtf Gen.Io.ctfTables ⟨marks, xc, yc, xs, ys, np, pl, nc, rows⟩))])
+
+open Orix.Codec.Bruker in
+def jBrukerFile (f : BrukerFile) : String :=
+  jObj [("grid", jStr f.gridType), ("nrows", jInt f.nrows), ("ncols", jInt f.ncols),
+        ("iy", jOpt (jList jInt) f.iy), ("ix", jOpt (jList jInt) f.ix),
+        ("phases", jList (fun (p : BPhase) => jObj [("id", jInt p.id), ("name", jStr p.name), ("it", jInt p.it),
+            ("lat", jList jInt p.lattice), ("atoms", jList (jList jStr) p.atoms)]) f.phases),
+        ("phase", jList jInt f.phase),
+        ("euler", jList (fun (e : Str × List Int) => jArr [jStr e.1, jList jInt e.2]) f.euler),
+        ("data", jList (fun (e : Str × List Int) => jArr [jStr e.1, jList jInt e.2]) f.data)]
+
+open Orix.Codec.Bruker in
+def runEncBruker : P String := do
+  let roi ← pBool; let perm ← pList pNat; let nr ← pNat; let nc ← pNat; let iy0 ← pInt; let ix0 ← pInt
+  let x0 ← pInt; let y0 ← pInt
+  let atoms ← pList (pList (pList pStr)); let it ← pList pInt
+  let m ← pPMap
+  let f := encode ⟨roi, perm, nr, nc, iy0, ix0, x0, y0, atoms, it⟩ m
+  pure (jObj [("file", jBrukerFile f), ("read", jOpt jPMap (decode Gen.Io.brukerTables f))])
+
+open Orix.Codec.Emsoft in
+def jKMap (m : KMap) : String :=
+  jObj [("props", jList jStr m.propNames),
+        ("pts", jList (fun (p : KPt) => jObj [("x", jInt p.x), ("y", jInt p.y), ("ph", jInt p.phaseId),
+            ("eus", jList jEuler p.eus), ("v", jList (jList jInt) p.vals)]) m.pts),
+        ("phases", jList jPhaseInfo m.phases), ("unit", jStr m.unit), ("deg", jBool m.degrees)]
+
+open Orix.Codec.Emsoft in
+def jEmsoftFile (f : EmsoftFile) : String :=
+  jObj [("nrows", jInt f.nRows), ("ncols", jInt f.nColumns), ("stepy", jInt f.stepY),
+        ("material", jStr f.materialName), ("pg", jStr f.pointGroup), ("lat", jList jInt f.lattice),
+        ("x", jList jInt f.xPosition), ("phase", jList jInt f.phase), ("nnk", jInt f.nnk), ("fzcnt", jInt f.fzcnt),
+        ("dict", jList jEuler f.dictEuler), ("idx", jList (jList jInt) f.topMatchIdx),
+        ("refined", jOpt (jList jEuler) f.refinedEuler),
+        ("props", jList (fun (p : EProp) => jObj [("name", jStr p.name), ("shape", jList jNat p.shape),
+            ("vals", jList jInt p.vals)]) f.props)]
+
+open Orix.Codec.Emsoft in
+def runEncEmsoft : P String := do
+  let nr ← pNat; let nc ← pNat; let sy ← pInt; let mat ← pStr; let pg ← pStr; let refined ← pBool
+  let nnk ← pNat; let dict ← pList pEuler; let idx ← pList (pList pInt); let shapes ← pList (pList pNat)
+  let names ← pList pStr
+  let pts ← pList (do
+    let x ← pInt; let y ← pInt; let ph ← pInt; let eus ← pList pEuler; let v ← pList (pList pInt)
+    pure (⟨x, y, ph, eus, v⟩ : KPt))
+  let phases ← pList pPhaseInfo; let unit ← pStr; let deg ← pBool
+  let m : KMap := ⟨names, pts, phases, unit, deg⟩
+  let f := encode ⟨nr, nc, sy, mat, pg, refined, nnk, dict, idx, shapes⟩ m
+  pure (jObj [("file", jEmsoftFile f), ("read", jOpt jKMap (decode Gen.Io.emsoftTables refined f))])
+
+end Vendors
+
+def subops : List (String × P String) :=
+  [("ang", runAng), ("h5", runH5), ("decang", runDecAng), ("encang", runEncAng), ("encctf", runEncCtf),
+   ("decctf", runDecCtf), ("encbruker", runEncBruker), ("encemsoft", runEncEmsoft)]
 
 def handle : List String → String
   | sub :: args =>
